@@ -857,3 +857,50 @@ func specBitcode(high int) bitcode {
 	}
 	return bitcodeNone
 }
+
+// ---------------------------------------------------------------------------
+// decimal.go: a Decimal denotes n * 10^(-scale). Exactness is stated over a common scale:
+// the sum, difference and comparison of a and b are those of their coefficients brought to
+// the finer of the two scales S = max(a.scale, b.scale), where the coefficient of d at a
+// scale s >= d.scale is d.n * 10^(s - d.scale).
+
+func specDecWF(d *Decimal) bool { return d != nil && d.n != nil }
+
+func specDecPow10(k int64) *big.Int {
+	return new(big.Int).Exp(big.NewInt(10), big.NewInt(k), nil)
+}
+
+func specDecMaxScale(a, b *Decimal) int32 {
+	if a.scale < b.scale {
+		return b.scale
+	}
+	return a.scale
+}
+
+func specDecUp(d *Decimal, s int32) *big.Int {
+	return new(big.Int).Mul(d.n, specDecPow10(int64(s)-int64(d.scale)))
+}
+
+func specBigAdd(a, b *big.Int) *big.Int { return new(big.Int).Add(a, b) }
+func specBigSub(a, b *big.Int) *big.Int { return new(big.Int).Sub(a, b) }
+func specBigMul(a, b *big.Int) *big.Int { return new(big.Int).Mul(a, b) }
+func specBigNeg(a *big.Int) *big.Int    { return new(big.Int).Neg(a) }
+func specBigAbs(a *big.Int) *big.Int    { return new(big.Int).Abs(a) }
+func specBigEq(a, b *big.Int) bool      { return a.Cmp(b) == 0 }
+
+// specDecDigits: the number of decimal digits of the coefficient (the sign is not a digit).
+func specDecDigits(d *Decimal) int {
+	if d.n.Sign() < 0 {
+		return len(d.n.String()) - 1
+	}
+	return len(d.n.String())
+}
+
+// specDecLeading: the coefficient cut to its k leading digits (k below the digit count).
+func specDecLeading(d *Decimal, k int) *big.Int {
+	if d.n.Sign() < 0 {
+		k++
+	}
+	v, _ := new(big.Int).SetString(d.n.String()[:k], 10)
+	return v
+}
